@@ -543,7 +543,45 @@ var specByName = func() map[string]*spec {
 var needsNetDialer = map[string]bool{"DialTimeout": true}
 var needsACK = map[string]bool{"MaxMessageSize": true, "MaxChunkCount": true, "ReceiveBufferSize": true, "SendBufferSize": true}
 
-func genStep(t *rapid.T) stepT {
+func optGen(focus bool) *rapid.Generator[optT] {
+	var names []string
+	for _, sp := range specs {
+		// a quarter of the constructions lean on the dialer / limit options
+		if focus && !(needsACK[sp.name] || needsNetDialer[sp.name] || sp.name == "Dialer" || sp.name == "ApplicationName" || sp.name == "Locales") {
+			continue
+		}
+		names = append(names, sp.name)
+	}
+	return rapid.Custom(func(t *rapid.T) optT {
+		o := optT{Name: rapid.SampledFrom(names).Draw(t, "opt")}
+		specByName[o.Name].gen(t, &o)
+		return o
+	})
+}
+
+var optAny, optFocus = optGen(false), optGen(true)
+
+// dropNilDereferences removes the options that would write through the nil part
+// of a user dialer placed earlier in the same construction.
+func dropNilDereferences(opts []optT) []optT {
+	out := make([]optT, 0, len(opts))
+	netNil, ackNil := false, false
+	for _, o := range opts {
+		if (netNil && needsNetDialer[o.Name]) || (ackNil && needsACK[o.Name]) {
+			continue
+		}
+		if o.Name == "Dialer" && o.Dialer != nil {
+			netNil = o.Dialer.Kind == "empty" || o.Dialer.Kind == "no-netdialer"
+			ackNil = o.Dialer.Kind == "empty" || o.Dialer.Kind == "no-ack"
+		}
+		out = append(out, o)
+	}
+	return out
+}
+
+// slices are drawn with rapid.SliceOfN so that the shrinker can delete any
+// construction and any option, not only the last ones.
+var stepGen = rapid.Custom(func(t *rapid.T) stepT {
 	var s stepT
 	s.Ctor = rapid.SampledFrom([]string{"NewClient", "NewClient", "ApplyConfig"}).Draw(t, "ctor")
 	if s.Ctor == "NewClient" {
@@ -553,37 +591,17 @@ func genStep(t *rapid.T) stepT {
 	if rapid.IntRange(0, 2).Draw(t, "plain") == 0 {
 		return s // construction without options
 	}
-	n := rapid.IntRange(1, ev.Pick(6, 10)).Draw(t, "nopts")
-	netNil, ackNil := false, false
-	focus := rapid.IntRange(0, 3).Draw(t, "focus") == 0 // a quarter of the constructions lean on dialer/limit options
-	for i := 0; i < n; i++ {
-		var cand []string
-		for _, sp := range specs {
-			if (netNil && needsNetDialer[sp.name]) || (ackNil && needsACK[sp.name]) {
-				continue
-			}
-			if focus && !(needsACK[sp.name] || needsNetDialer[sp.name] || sp.name == "Dialer" || sp.name == "ApplicationName" || sp.name == "Locales") {
-				continue
-			}
-			cand = append(cand, sp.name)
-		}
-		o := optT{Name: rapid.SampledFrom(cand).Draw(t, "opt")}
-		specByName[o.Name].gen(t, &o)
-		if o.Name == "Dialer" {
-			netNil = o.Dialer.Kind == "empty" || o.Dialer.Kind == "no-netdialer"
-			ackNil = o.Dialer.Kind == "empty" || o.Dialer.Kind == "no-ack"
-		}
-		s.Opts = append(s.Opts, o)
+	g := optAny
+	if rapid.IntRange(0, 3).Draw(t, "focus") == 0 {
+		g = optFocus
 	}
+	s.Opts = dropNilDereferences(rapid.SliceOfN(g, 1, ev.Pick(6, 10)).Draw(t, "opts"))
 	return s
-}
+})
 
 func genCase(t *rapid.T) caseT {
 	var c caseT
-	n := rapid.IntRange(2, 12).Draw(t, "len")
-	for i := 0; i < n; i++ {
-		c.Steps = append(c.Steps, genStep(t))
-	}
+	c.Steps = rapid.SliceOfN(stepGen, 2, 12).Draw(t, "program")
 	c.Wire = rapid.IntRange(0, 3).Draw(t, "wire") == 0
 	return c
 }
